@@ -108,6 +108,20 @@ SHORT = {
     "numeric_complex": "a = 0j\nb = 1j\nc = 1 + 0j\nd = 2j\ne = -0j\nprint(a, b, c, d, e)\n",
     "numeric_ints_bools": "a = 0\nb = 1\nc = True\nd = False\ne = 2\nf = 255\ng = 0x0\nh = -1\nprint(a, b, c, d, e, f, g, h)\n",
     "equal_constants_mixed": "xs = [0, 0.0, 0j, False, 1, 1.0, True, (1+0j), -1, -1.0, '', b'', None, ..., '0', b'0']\nprint(xs)\n",
+    "private_like_names": (
+        "__registry = {}\n_single = 1\ntrailing_ = 2\n__dunder__ = 3\nclass Obj:\n    pass\nobj = Obj()\nobj.__token = 5\nobj._x = 6\n"
+        "def use(__arg, _b=1):\n    __local = __arg + _b\n    return [__registry, __local, obj.__token]\nprint(use(1), _single, trailing_, __dunder__)\n"
+    ),
+    "private_in_class": (
+        "class Shape:\n    __count = 0\n    def __init__(self):\n        self.__id = Shape.__count\n        Shape.__count += 1\n"
+        "    def ident(self):\n        return self.__id\nprint(Shape().ident(), Shape().ident())\n"
+    ),
+    "shadow_builtins_loop": "next = (1, 2)\niter = 'it'\nfor x in range(5):\n    if x == 2:\n        break\nprint(x, next, iter)\n",
+    "shadow_builtins_misc": (
+        "setattr = None\nhasattr = None\ntuple = list\nslice = 3\ntype = 'T'\nglobals = 1\nlocals = 2\na, b = 1, 2\nc = [0, 1, 2]\n"
+        "print(a, b, c, tuple, slice, type)\n"
+    ),
+    "shadow_helper_modules": "itertools = 'mine'\nimportlib = 'mine too'\ni = 0\nwhile i < 2:\n    i += 1\nprint(itertools, importlib, i)\n",
     "global_decl": "g = 0\ndef f():\n    global g\n    g += 1\n    return g\nf()\nprint(g)\n",
     # --- classes -------------------------------------------------------------------
     "class_super": (
@@ -155,6 +169,9 @@ FAILING = {
     "fail_star2": "*a, *b = [1, 2]\n",
     "fail_with": "for i in range(3):\n    with open('x') as f:\n        pass\n",
     "fail_syntax": "def (:\n",
+    "fail_in_class": "class Shape:\n    k = 1\n    def area(self):\n        raise NotImplementedError\n",
+    "fail_in_nested_function": "def outer(a):\n    def inner(b):\n        for i in range(b):\n            assert i\n        return a\n    return inner\n",
+    "fail_in_comprehension_class": "class K:\n    v = [x for x in range(3)]\n    del v\n",
     # deeply nested EXPRESSIONS (the statement-count programs above nest the wrapper calls instead)
     "fail_deep_binop": "x = " + " + ".join(["1"] * 700) + "\nprint(x)\n",
     "fail_deep_attr": "import os\nx = os" + ".path" * 600 + "\n",
